@@ -4,9 +4,11 @@ Functions under contract (read from /repo/dagrt/data.py on every run):
   unify, SymbolKindTable.set
 """
 import z3
+from z3 import Not, If
 from pyvc.values import *  # noqa
 from pyvc.contracts import FunctionContract, FunctionUnit, LemmaUnit, LeanUnit, summary_function
 from pyvc.engine import Obligation
+from . import kinds as kinds_mod
 from .kinds import Kind, Outcome, KIND, KIND_CLASSES, Ident, type_of_kind
 
 PROP = "C14"
@@ -210,9 +212,77 @@ class SetUnit(FunctionUnit):
         return axioms, obs, info
 
 
+class KindEq(FunctionContract):
+    """SymbolKind.__eq__ / __ne__: two kinds are equal exactly if they are of the same class with the same constructor
+    arguments (the ADT equality every other contract uses for kinds: 'the table changed', 'the kinds unify'); a kind never
+    equals something that is not a kind.  __getinitargs__ of each class is read as: () for Boolean / Integer,
+    (is_real_valued,) for Scalar / Array, (identifier,) for UserType (A-INITARGS, the five two-line methods)."""
+    prop = "C14"
+    relpath = "dagrt/data.py"
+
+    def __init__(self, method, other_is_kind):
+        self.qualname = "SymbolKind." + method
+        self.method, self.other_is_kind = method, other_is_kind
+        self.variant_name = "other-is-a-kind" if other_is_kind else "other-is-not-a-kind"
+        self.a, self.b = z3.Const("self_kind", Kind), z3.Const("other_kind", Kind)
+        self.Args = z3.Datatype("InitArgs")
+        self.Args.declare("mk", ("flag", z3.BoolSort()), ("ident", kinds_mod.Ident))
+        self.Args = self.Args.create()
+        self.ARGS = TElem("InitArgs", self.Args)
+
+    def initargs(self, k):
+        i0 = z3.Const("no_identifier", kinds_mod.Ident)
+        return If(Kind.is_Scalar(k), self.Args.mk(Kind.s_real(k), i0), If(Kind.is_Array(k), self.Args.mk(Kind.a_real(k), i0),
+               If(Kind.is_UserType(k), self.Args.mk(True, Kind.u_ident(k)), self.Args.mk(True, i0))))
+
+    def params(self, ctx):
+        ctx.env["self"] = KIND.wrap(self.a)
+        ctx.env["other"] = KIND.wrap(self.b) if self.other_is_kind else VPy("<not a kind>")
+        ctx.assume(Not(Kind.is_NoneK(self.a)))
+        if self.other_is_kind:
+            ctx.assume(Not(Kind.is_NoneK(self.b)))
+
+    def getattr_hook(self, ctx, it, obj, name):
+        o = ctx.deref(obj)
+        if name == "__getinitargs__":
+            if isinstance(o, VElem) and o.ty is KIND:
+                return VFunc(name, lambda ctx, it, a, k: self.ARGS.wrap(self.initargs(o.t)))
+            # something that is not a kind has no such method
+            return VFunc(name, lambda ctx, it, a, k: ctx.raise_("AttributeError"))
+        if name == "__eq__" and isinstance(o, VElem) and o.ty is KIND:
+            def eq(ctx, it, a, k):
+                # self.__eq__(other) from __ne__: by __eq__'s own contract
+                x = ctx.deref(a[0])
+                return VBool(o.t == x.t) if isinstance(x, VElem) and x.ty is KIND else VBool(False)
+            return VFunc(name, eq)
+        return None
+
+    def isinstance_hook(self, ctx, it, obj, names):
+        o = ctx.deref(obj)
+        if isinstance(o, VPy) and o.py == "<not a kind>":
+            return VBool(False)
+        return None
+
+    def m_type(self, ctx, it, args, kw):
+        v = ctx.deref(args[0])
+        if isinstance(v, VElem) and v.ty is KIND:
+            return VInt(kinds_mod.kind_class(v.t))
+        return VInt(-1)                   # the class of something that is not a kind: none of the kind classes
+
+    names = property(lambda self: {"type": VFunc("type", self.m_type), "SymbolKind": VClass("SymbolKind")})
+
+    def ensures(self, st):
+        r = st._deref(st.result)
+        if not isinstance(r, VBool):
+            return [("returns-a-truth-value", z3.BoolVal(False))]
+        same = (self.a == self.b) if self.other_is_kind else z3.BoolVal(False)
+        want = same if self.method == "__eq__" else Not(same)
+        return [("equal-exactly-for-the-same-class-with-the-same-constructor-arguments", r.t == want)]
+
+
 def table_units():
     uu = UnifyUnit(UnifyContract())
-    return [uu, SetUnit(SetContract(uu))]
+    return [uu, SetUnit(SetContract(uu))] + [FunctionUnit(KindEq(m, k)) for m in ("__eq__", "__ne__") for k in (True, False)]
 
 
 def units():
@@ -226,7 +296,7 @@ LEVEL = "proof"
 BOUNDED = {"quick": {"programs": 150, "timeout_s": 120},
            "thorough": {"programs": 3000, "timeout_s": 900}}
 TRUSTED_BASE = [
-    "record equality of SymbolKind is structural (type and __getinitargs__), modelled as ADT equality",
+    "record equality of SymbolKind is ADT equality: SymbolKind.__eq__ / __ne__ are under contract (KindEq), relative to A-INITARGS: __getinitargs__ is () for Boolean / Integer, (is_real_valued,) for Scalar / Array, (identifier,) for UserType",
 ]
 ASSUMPTIONS = [
     "assert statements execute (python is not run with -O)",
